@@ -589,8 +589,6 @@ def _run(mod, args, seed, known, known_open, scratch_root):
     for v, path in out_lines:
         print("  [%s] %s" % (v["sub"], v["message"][:400]))
         print("VIOLATION property=%s replay=%s" % (prop, path))
-    if out_lines:
-        return 1
     if errors:
         shown = set()
         for e in errors:
@@ -601,5 +599,8 @@ def _run(mod, args, seed, known, known_open, scratch_root):
             print("HARNESS ERROR: " + e[-1500:], file=sys.stderr)
         print("HARNESS ERROR: %d task(s) failed in the harness" % len(errors),
               file=sys.stderr)
+    if out_lines:
+        return 1
+    if errors:
         return 2
     return 0
